@@ -176,7 +176,7 @@ theorem inv_step (s : State) (a : Act) (hi : Inv s) : Inv (step s a).1 := by
     split
     · rename_i hc
       simp only [Bool.and_eq_true] at hc
-      unfold expire; split
+      unfold expireAt; split
       · exact hi
       · split
         · exact hi
